@@ -454,7 +454,9 @@ func (p c20) checkOrder(c *core.C, cs c20Case, events []core.InotifyEvent, wdDst
 					}
 				}
 			}
-			if names[e.Name] && e.Mask&syscall.IN_CLOSE_WRITE != 0 {
+			// a referenced file is complete when it is closed after writing - or when it arrives by
+			// rename (an implementation may copy to a temporary name first)
+			if names[e.Name] && e.Mask&(syscall.IN_CLOSE_WRITE|syscall.IN_MOVED_TO) != 0 {
 				closed[e.Name] = true
 				lastRef = i
 			}
